@@ -378,6 +378,9 @@ class SQLiteTrigger(BaseTrigger):
         now = datetime.now(UTC)
         expiration = now + timedelta(seconds=expiration_seconds)
         with sqlite_conn(self.sqlite_db_path) as conn:
+            # take the write lock before reading, so that two runners cannot both see
+            # "no live claim" and both insert one
+            conn.execute("BEGIN IMMEDIATE")
             cursor = conn.execute(
                 f"SELECT expiration FROM {self.tables.TRIGGER_RUN_CLAIMS} WHERE trigger_run_id = ?",
                 (trigger_run_id,),
